@@ -1,15 +1,40 @@
 CHECK = {
     "lean_module": "MidnightZK.Props.C11",
     "harness": "h-c11",
-    "translators": [],
+    "translators": ["c11_constants"],
     "level": "proof",
-    "rule": "a case is non-trivial when at least one operand is not the identity / the byte string is not all-zero; "
-            "distinctness by hash of the request line (curve, operation, canonical operands)",
-    "explanation": "Lean theorems over the executable curve models (pure-Rust formulas = affine group law; codecs canonical); "
-                   "model tied to the implementation by running both on the same requests",
-    "trusted_base": [],
-    "level_text": "",
-    "level_note": "",
-    "assumptions": [],
+    "technique": "Lean 4 theorems over executable curve models (grind over Lean.Grind.Field/CommRing, decide +kernel on "
+                 "generated constants) + structural correspondence of the models with the Rust types",
+    "rule": "one case = one request line `<curve> <op>[:<impl path>] <canonical operands>` answered by both the real "
+            "type and the Lean model; a case is non-trivial unless it only restates a constant; distinctness by hash "
+            "of the request line (so the same operation through another operator overload / representation mix "
+            "counts separately: it is a different code path)",
+    "explanation": "Kernel-checked theorems: every pure-Rust curve formula (Jubjub extended/Niels/double/neg/multiply "
+                   "loop; BN254 Renes-Costello-Batina add/mixed/double) equals the affine group law for all inputs; "
+                   "completeness of the a=-1 Edwards law; Jacobian/homogeneous conversions and equality tests; codec "
+                   "canonicity (Jubjub), flag discipline (BLS12-381), tag discipline (secp256k1); constants parsed from "
+                   "the sources satisfy their defining equations. The same definitions are compiled into mzk-c11 and "
+                   "compared with the implementation (raw coordinates for the pure-Rust types, affine values and byte "
+                   "strings for the blst/k256/dalek wrappers) on all operand/scalar/encoding classes of the property; "
+                   "the harness also checks the property directly against an affine law over num-bigint.",
+    "trusted_base": [
+        "blst (G1/G2 point routines, hash-to-curve used only to draw random operands), k256 and curve25519-dalek "
+        "internals: specified by the affine group law and the byte-level decoder models, checked by correspondence only",
+        "translator translators/c11_constants.py (prints the constants of the Rust sources into Gen/C11Constants.lean)",
+    ],
+    "assumptions": [
+        "primality of the coordinate-field moduli (BLS12-381 scalar modulus: property C10; the others are hypotheses): "
+        "the theorems are stated over an arbitrary field / commutative ring, the driver evaluates them over Z/p",
+        "associativity of the group laws is not proved: the multiply-loop theorem relates the code to the affine "
+        "double-and-add schedule, not to an abstract k·P",
+        "completeness of the Renes-Costello-Batina formulas (Z3 != 0) on BN254 is a hypothesis of the affine corollaries "
+        "(*_spec_partial); the fraction-free statements need no hypothesis",
+    ],
+    "level_text": "Kernel-checked Lean theorems about executable models of the curve formulas, conversions and codecs "
+                  "(all inputs, all representations), with the models run against the real curve types on every check",
+    "level_note": "Trusted: Lean kernel, harness and driver. blst / k256 / curve25519-dalek internals are specified "
+                  "(affine law, decoder models) and checked by correspondence, not verified. Known findings: blst's "
+                  "endomorphism-based scalar multiplication is wrong outside the prime-order subgroup (reachable through "
+                  "on-curve-only constructors); curve25519-dalek's decoder accepts non-canonical encodings.",
     "timeout": {"quick": 900, "thorough": 3000, "search": 900},
 }
